@@ -532,6 +532,116 @@ fn run_call(acc: &mut Acc, case: &Case, entry_name: &str, call: &Call, what: &st
     }
 }
 
+// ---------------------------------------------------------------- structure-aware deviations of JSON / CBOR documents
+
+#[derive(Clone, Debug)]
+enum Seg {
+    Key(String),
+    Idx(usize),
+}
+
+fn node_paths(v: &Value, cur: &mut Vec<Seg>, out: &mut Vec<Vec<Seg>>) {
+    out.push(cur.clone());
+    match v {
+        Value::Array(a) => {
+            for (i, x) in a.iter().enumerate() {
+                cur.push(Seg::Idx(i));
+                node_paths(x, cur, out);
+                cur.pop();
+            }
+        }
+        Value::Object(o) => {
+            for (k, x) in o.iter() {
+                cur.push(Seg::Key(k.clone()));
+                node_paths(x, cur, out);
+                cur.pop();
+            }
+        }
+        _ => {}
+    }
+}
+
+fn node_mut<'a>(v: &'a mut Value, path: &[Seg]) -> Option<&'a mut Value> {
+    let mut cur = v;
+    for s in path {
+        cur = match s {
+            Seg::Key(k) => cur.get_mut(k.as_str())?,
+            Seg::Idx(i) => cur.get_mut(*i)?,
+        };
+    }
+    Some(cur)
+}
+
+fn replacements() -> Vec<Value> {
+    vec![
+        json!([]),
+        json!([""]),
+        json!(""),
+        json!("00"),
+        json!("0"),
+        json!("zz"),
+        json!(0),
+        json!(1),
+        json!(-1),
+        json!(255),
+        json!(256),
+        json!(4294967295u64),
+        json!(4294967296u64),
+        json!(18446744073709551615u64),
+        json!(1.5),
+        Value::Null,
+        json!(true),
+        json!({}),
+        json!("0000000000000000000000000000000000000000000000000000000000000000"),
+        json!("OP_IF"),
+        json!({"OpCode": "OP_ELSE"}),
+        json!({"Push": ""}),
+        json!({"If": {"code": "OP_IF", "pass": [], "fail": null}}),
+    ]
+}
+
+/// deviation k of the document: k < R: node replaced by replacement k; R: node deleted from its parent; R+1: node duplicated
+/// (array element) / re-inserted under another key (object member)
+fn tree_deviation(doc: &Value, path: &[Seg], k: usize) -> Option<Value> {
+    let reps = replacements();
+    let mut d = doc.clone();
+    if k < reps.len() {
+        *node_mut(&mut d, path)? = reps[k].clone();
+        return Some(d);
+    }
+    let (last, parent_path) = path.split_last()?;
+    let parent = node_mut(&mut d, parent_path)?;
+    match (parent, last, k - reps.len()) {
+        (Value::Array(a), Seg::Idx(i), 0) => {
+            a.remove(*i);
+        }
+        (Value::Array(a), Seg::Idx(i), _) => {
+            let x = a[*i].clone();
+            a.insert(*i, x);
+        }
+        (Value::Object(o), Seg::Key(key), 0) => {
+            o.remove(key.as_str());
+        }
+        (Value::Object(o), Seg::Key(key), _) => {
+            let x = o.get(key.as_str())?.clone();
+            o.insert(format!("{}_", key), x);
+        }
+        _ => return None,
+    }
+    Some(d)
+}
+
+fn tree_docs() -> Vec<(&'static str, Value)> {
+    let genesis = hex::decode("01000000010000000000000000000000000000000000000000000000000000000000000000ffffffff4d04ffff001d0104455468652054696d65732030332f4a616e2f32303039204368616e63656c6c6f72206f6e206272696e6b206f66207365636f6e64206261696c6f757420666f722062616e6b73ffffffff0100f2052a01000000434104678afdb0fe5548271967f1a67130b7105cd6a828e03909a67962e0ea1f61deb649f6bc3f4cef38c4f35504e51ec112de5c384df7ba0b8d578a4c702b6bf11d5fac00000000").unwrap();
+    let mut ext = Transaction::from_bytes(&sample_tx().encode()).unwrap();
+    let mut i0 = ext.get_input(0).unwrap();
+    i0.set_satoshis(1234);
+    i0.set_locking_script(&Script::from_bytes(&[0x76, 0xa9, 0x01, 0x07, 0x88, 0xac]).unwrap());
+    ext.set_input(0, &i0);
+    let parse = |t: &Transaction| serde_json::from_str::<Value>(&t.to_json_string().unwrap()).unwrap();
+    vec![("sample-2in-2out", parse(&Transaction::from_bytes(&sample_tx().encode()).unwrap())), ("genesis-coinbase", parse(&Transaction::from_bytes(&genesis).unwrap())), ("extended-fields", parse(&ext))]
+}
+
 const AES_KEY_LENS: [usize; 8] = [0, 1, 15, 16, 17, 31, 32, 33];
 const AES_IV_LENS: [usize; 6] = [0, 1, 15, 16, 17, 32];
 const AES_MSG_LENS: [usize; 6] = [0, 1, 15, 16, 17, 48];
@@ -548,6 +658,70 @@ pub fn spaces(_tier: Tier) -> Vec<Space> {
                 acc.sample(case.idx, || json!({"entry": p2.entry.name, "case": what, "input_hex": hx(&input)}));
             }
             run_call(acc, case, p2.entry.name, &p2.entry.call, &what, &input);
+        }));
+    }
+    // structure-aware deviation 1 on JSON documents and on their CBOR twins: every node of the document tree x
+    // (23 replacement values, delete, duplicate), through the JSON and the compact decoders of Transaction and TxIn
+    {
+        let docs = tree_docs();
+        let nrep = replacements().len() + 2;
+        let mut table: Vec<(usize, Vec<Seg>)> = vec![];
+        for (di, (_, doc)) in docs.iter().enumerate() {
+            let mut ps = vec![];
+            node_paths(doc, &mut vec![], &mut ps);
+            for p in ps {
+                table.push((di, p));
+            }
+        }
+        let n = table.len() as u64;
+        v.push(Space::isolated("json-cbor-tree-deviations", n * nrep as u64 * 3, move |case, acc| {
+            let c = crate::engine::coords(case.idx, &[n, nrep as u64, 3]);
+            let (di, path) = &table[c[0] as usize];
+            let Some(dev) = tree_deviation(&docs[*di].1, path, c[1] as usize) else { return };
+            let what = format!("{}:{:?}:dev{}", docs[*di].0, path, c[1]);
+            match c[2] {
+                0 => {
+                    let text = dev.to_string();
+                    let call: Call = Box::new(|b: &[u8]| {
+                        if let Ok(t) = mark(Transaction::from_json_string(&s(b))) {
+                            let _ = t.to_bytes();
+                            let _ = t.get_id_hex();
+                            let _ = t.to_json_string();
+                            let _ = t.to_compact_bytes();
+                        }
+                    });
+                    run_call(acc, case, "Transaction::from_json_string", &call, &what, text.as_bytes());
+                }
+                1 => {
+                    let mut buf = vec![];
+                    if ciborium::ser::into_writer(&dev, &mut buf).is_err() {
+                        return;
+                    }
+                    let call: Call = Box::new(|b: &[u8]| {
+                        if let Ok(t) = mark(Transaction::from_compact_bytes(b)) {
+                            let _ = t.to_bytes();
+                            let _ = t.get_id_hex();
+                            let _ = t.to_json_string();
+                        }
+                    });
+                    run_call(acc, case, "Transaction::from_compact_bytes", &call, &what, &buf);
+                }
+                _ => {
+                    // the first input of the deviated document on its own
+                    let Some(inp) = dev.get("inputs").and_then(|i| i.get(0)) else { return };
+                    let mut buf = vec![];
+                    if ciborium::ser::into_writer(inp, &mut buf).is_err() {
+                        return;
+                    }
+                    let call: Call = Box::new(|b: &[u8]| {
+                        if let Ok(t) = mark(TxIn::from_compact_bytes(b)) {
+                            let _ = t.to_bytes();
+                            let _ = t.to_compact_bytes();
+                        }
+                    });
+                    run_call(acc, case, "TxIn::from_compact_bytes", &call, &what, &buf);
+                }
+            }
         }));
     }
     // AES: key / IV / message material of every length class, all four modes, both directions
